@@ -578,4 +578,173 @@ def compileOK (tf : TrieFacts) (vf : ValidateFacts) (st : FTy) (decls : List (FT
   acceptedOverlap tf (decls.map (fun d => d.2.map (·.dst)))
     && decls.all (fun d => d.2.isEmpty || validateEdge vf d.1 st d.2)
 
+/-! ## the pre-node handler chain (graph_manager.go `preNodeHandlerManager.handle`) and static
+   values (workflow.go `SetStaticValue`, the handler built in `Workflow.compile`)
+
+  A node with field mappings gets the pre-node handler `inputFieldMappingConverter` (graph.go
+  compile); a Workflow node with static values gets the handler "merge the static values" *in
+  front of it* (workflow.go compile).  `handle` applies the list of handlers in a value twin
+  (`invoke`) and a stream twin (`transform`).  A stream is modelled by the list of its chunks.  -/
+
+/-- structural facts of one `…HandlerManager.handle` -/
+structure ChainFacts where
+  /-- the value twin applies every handler of the list (the loop only leaves on an error) -/
+  valueAppliesAll : Bool
+  /-- the stream twin applies every handler of the list (assign and continue; no `return` in
+      the loop body) -/
+  streamAppliesAll : Bool
+  deriving DecidableEq, Repr
+
+/-- `handlerPair`: value twin and stream twin (`.error` = an error or a panic surfaces when the
+    value / the stream is produced or read) -/
+structure HandlerPair (V : Type) (E : Type) where
+  invoke : V → Except E V
+  transform : List V → Except E (List V)
+
+/-- the value twin of `handle`: `for _, v := range handlers { value, err = v.invoke(value) … }`.
+    `all = false`: the loop is left after the first handler. -/
+def chainValue {V E : Type} (all : Bool) : List (HandlerPair V E) → V → Except E V
+  | [], v => .ok v
+  | h :: rest, v =>
+    match h.invoke v with
+    | .error e => .error e
+    | .ok v' => if all then chainValue all rest v' else .ok v'
+
+/-- the stream twin of `handle`: `for _, v := range handlers { value = v.transform(value) }` -/
+def chainStream {V E : Type} (all : Bool) : List (HandlerPair V E) → List V → Except E (List V)
+  | [], cs => .ok cs
+  | h :: rest, cs =>
+    match h.transform cs with
+    | .error e => .error e
+    | .ok cs' => if all then chainStream all rest cs' else .ok cs'
+
+/-- a handler commutes with concatenation: transforming the chunks and concatenating gives what
+    the value twin gives on the concatenated chunks -/
+def Commutes {V E : Type} (concat : List V → V) (h : HandlerPair V E) : Prop :=
+  ∀ cs, (h.transform cs).map concat = h.invoke (concat cs)
+
+/-- the same, required only on the chunk lists that actually occur along the chain started on `cs` -/
+def CommutesAlong {V E : Type} (concat : List V → V) : List (HandlerPair V E) → List V → Prop
+  | [], _ => True
+  | h :: rest, cs =>
+    (h.transform cs).map concat = h.invoke (concat cs) ∧
+    ∀ cs', h.transform cs = .ok cs' → CommutesAlong concat rest cs'
+
+/-- what travels towards a node with field mappings: before the converter a `map[string]any`
+    keyed by the joined target paths, after it the typed node input -/
+inductive NodeIn where
+  | entries (l : List (Path × Taken))
+  | val (v : FVal)
+  deriving DecidableEq, Repr, Inhabited
+
+/-- utils.go `mergeMap`: a key present on both sides is an error -/
+def dupKey (a b : List (Path × Taken)) : Bool := a.any (fun x => b.any (fun y => x.1 == y.1))
+
+def NodeIn.isEntries : NodeIn → Bool
+  | .entries _ => true
+  | .val _ => false
+
+/-- the handler `Workflow.compile` installs for the static values `st` of a node (stored keyed by
+    the joined path): value twin `mergeValues([in, value])`, stream twin "merge a one-chunk
+    stream holding `value` into the incoming stream" -/
+def staticHandler (st : List (Path × Taken)) : HandlerPair NodeIn RunErr where
+  invoke
+    | .entries l => if dupKey l st then .error .request else .ok (.entries (l ++ st))
+    | .val _ => .error .request                 -- `mergeValues`: unsupported type
+  transform cs :=
+    if cs.all NodeIn.isEntries then .ok (cs ++ [.entries st]) else .error .request
+
+/-- `buildFieldMappingConverter[I]`: `convertTo` on a `map[string]any`, a panic on anything else -/
+def convertIn (T : FTy) : NodeIn → Except RunErr NodeIn
+  | .entries l =>
+    match convertTo T l with
+    | some v => .ok (.val v)
+    | none => .error .panic                     -- "convertTo failed when must succeed"
+  | .val _ => .error .panic                     -- unexpected input type
+
+/-- `buildStreamFieldMappingConverter[I]`: every chunk is converted on its own -/
+def convertAll (T : FTy) : List NodeIn → Except RunErr (List NodeIn)
+  | [] => .ok []
+  | c :: cs =>
+    match convertIn T c with
+    | .error e => .error e
+    | .ok v =>
+      match convertAll T cs with
+      | .error e => .error e
+      | .ok vs => .ok (v :: vs)
+
+def converterHandler (T : FTy) : HandlerPair NodeIn RunErr where
+  invoke := convertIn T
+  transform := convertAll T
+
+/-- the pre-node handlers of a node with field mappings and the static values `st`: the static
+    handler is put in front (workflow.go: `append([]handlerPair{pair}, …)`), none when there are
+    no static values -/
+def nodeHandlers (T : FTy) (st : List (Path × Taken)) : List (HandlerPair NodeIn RunErr) :=
+  if st.isEmpty then [converterHandler T] else [staticHandler st, converterHandler T]
+
+/-- the node input assembled in non-streaming execution from the merged edge entries `mapped` -/
+def assembleStatic (f : ChainFacts) (T : FTy) (st mapped : List (Path × Taken)) : Except RunErr NodeIn :=
+  chainValue f.valueAppliesAll (nodeHandlers T st) (.entries mapped)
+
+/-- the chunks a node receives in streaming execution from the incoming map chunks -/
+def assembleStaticStream (f : ChainFacts) (T : FTy) (st : List (Path × Taken)) (chunks : List NodeIn) :
+    Except RunErr (List NodeIn) :=
+  chainStream f.streamAppliesAll (nodeHandlers T st) chunks
+
+/-! ### concatenation of chunks
+
+  `map[string]any` chunks keyed by joined paths concatenate to their union (values under the same
+  key are concatenated).  Typed chunks are
+  concatenated field by field: strings in arrival order, the other basic kinds "the one that is
+  set", maps by key (internal/concat.go `concatMaps`; for struct-typed node inputs the function
+  the harness registers with `RegisterStreamChunkConcatFunc`, which is this one). -/
+
+mutual
+def mergeV : FVal → FVal → FVal
+  | .nil, b => b
+  | .str x, .str y => .str (x ++ y)
+  | .int x, .int y => if y = 0 then .int x else .int y
+  | .ptr a, .ptr b => .ptr (mergeV a b)
+  | .obj fa, .obj fb => .obj (mergeFields fa fb)
+  | .map ka, .map kb => .map (mergeKVs ka kb)
+  | .box t a, .box t' b => if t = t' then .box t (mergeV a b) else .box t' b
+  | a, .nil => a
+  | _, b => b
+def mergeFields : FKVs → FKVs → FKVs
+  | .nil, fb => fb
+  | .cons n a ra, .cons _ b rb => .cons n (mergeV a b) (mergeFields ra rb)
+  | .cons n a ra, .nil => .cons n a ra
+def mergeKVs : FKVs → FKVs → FKVs
+  | .nil, kb => kb
+  | .cons k a ra, kb =>
+    match kb.lookup k with
+    | some b => (mergeKVs ra kb).ins k (mergeV a b)
+    | none => (mergeKVs ra kb).ins k a
+end
+
+deriving instance DecidableEq for Except
+
+/-- concatenation of two interface values found under the same key of `map[string]any` chunks -/
+def mergeTaken : Taken → Taken → Taken
+  | none, b => b
+  | a, none => a
+  | some (_, v), some (ty', v') => some (ty', mergeV v v')
+
+/-- `concatMaps` on chunks keyed by joined paths: a key seen before has its values concatenated
+    (a string arriving in pieces), a new key is added -/
+def insEntry (p : Path) (t : Taken) : List (Path × Taken) → List (Path × Taken)
+  | [] => [(p, t)]
+  | (q, u) :: r => if q = p then (q, mergeTaken u t) :: r else (q, u) :: insEntry p t r
+
+def mergeEntries (a b : List (Path × Taken)) : List (Path × Taken) :=
+  b.foldl (fun acc x => insEntry x.1 x.2 acc) a
+
+def NodeIn.merge : NodeIn → NodeIn → NodeIn
+  | .entries a, .entries b => .entries (mergeEntries a b)
+  | .val a, .val b => .val (mergeV a b)
+  | _, b => b
+
+def concatIn (cs : List NodeIn) : NodeIn := cs.foldl NodeIn.merge (.entries [])
+
 end EinoV.C15
